@@ -480,6 +480,8 @@ func runC17(c *Ctx) {
 		c.Floor("C17-R4", "input-length dependent bounds in Unmarshal", n, 1)
 	}
 	checkDeriveKeyUse(c, "C17-R5")
+	checkDerivedPassphraseIsCallersOwn(c, "C17-R3")
+	checkCryptoKeyHoldersAreDistinct(c, "C17-R1")
 	checkSaltedHash(c, "C17-R5")
 	checkInvalidPasswordOnlyOnDigestMismatch(c, "C17-R3")
 	checkChangeVerifiesOldPassphrase(c, "C17-R5")
@@ -986,4 +988,125 @@ func checkChangeVerifiesOldPassphrase(c *Ctx, rule string) {
 		}
 	}
 	c.Floor(rule, "key-material writes in ChangePassphrase", n, 2)
+}
+
+// checkDerivedPassphraseIsCallersOwn: the address manager checks a passphrase by handing it to DeriveKey. What it hands
+// over is the caller's passphrase and nothing else: followed back through the package's own call chain (loadManager <-
+// Open), every value that can reach the passphrase argument is a parameter — never a literal or a default put in its
+// place. A fallback ("an empty passphrase means the well-known default") makes a manager created with that default open
+// with the empty passphrase as well: the key accepts a passphrase it was not created from.
+func checkDerivedPassphraseIsCallersOwn(c *Ctx, rule string) {
+	p := c.P
+	n := 0
+	var bad func(v ssa.Value, fn *ssa.Function, depth int) string
+	bad = func(v ssa.Value, fn *ssa.Function, depth int) string {
+		if depth > 4 {
+			return ""
+		}
+		for _, o := range (&Slicer{P: p}).Origins(v) {
+			switch x := o.(type) {
+			case *ssa.Const:
+				if x.Value != nil {
+					return "the constant " + x.Value.String() + " in " + fnName(fn)
+				}
+			case *ssa.Global:
+				return "the package variable " + x.Name() + " in " + fnName(fn)
+			case *ssa.Parameter:
+				f := x.Parent()
+				if f == nil || f.Object() == nil || f.Object().Exported() || f.Parent() != nil {
+					continue
+				}
+				idx := paramIndex(f, x)
+				for _, cs := range p.realCallers(f) {
+					if idx < len(cs.Common().Args) {
+						if b := bad(cs.Common().Args[idx], cs.Parent(), depth+1); b != "" {
+							return b
+						}
+					}
+				}
+			case *ssa.UnOp:
+				if g, isG := x.X.(*ssa.Global); isG {
+					return "the package variable " + g.Name() + " in " + fnName(fn)
+				}
+			}
+		}
+		return ""
+	}
+	for _, fn := range p.FuncsIn("waddrmgr") {
+		for _, call := range callsNamed(fn, "DeriveKey") {
+			if recvName(call.Call.StaticCallee()) != "SecretKey" || len(call.Call.Args) < 2 {
+				continue
+			}
+			n++
+			// the argument is the address of the passphrase variable: what is stored there
+			var vals []ssa.Value
+			if al, ok := stripConv(call.Call.Args[1]).(*ssa.Alloc); ok {
+				for _, st := range storesTo(al) {
+					vals = append(vals, st.Val)
+				}
+			} else {
+				vals = append(vals, call.Call.Args[1])
+			}
+			why := ""
+			for _, v := range vals {
+				if b := bad(v, fn, 0); b != "" {
+					why = b
+				}
+			}
+			c.Check(rule, "derived-passphrase-is-callers-own:"+fn.Name(), call.Pos(), why == "",
+				fnName(fn)+" can check a passphrase that is not the one its caller supplied ("+why+" can take its place): a key created from that value is then accepted for another input as well")
+		}
+	}
+	c.Floor(rule, "passphrase checks in waddrmgr", n, 3)
+}
+
+// checkCryptoKeyHoldersAreDistinct: the manager keeps one crypto key per class (public, private, script); "decryption
+// under any other key fails" needs them to be different keys — different objects to begin with: Unlock fills the private
+// key holder IN PLACE, so two fields that were given one placeholder object end up holding the same key. No function
+// stores one value into two of the crypto-key fields.
+func checkCryptoKeyHoldersAreDistinct(c *Ctx, rule string) {
+	p := c.P
+	holders := map[string]bool{"cryptoKeyPub": true, "cryptoKeyPriv": true, "cryptoKeyScript": true}
+	n := 0
+	for _, fn := range p.FuncsIn("waddrmgr") {
+		byVal := map[ssa.Value][]string{}
+		for _, b := range fn.Blocks {
+			for _, ins := range b.Instrs {
+				st, ok := ins.(*ssa.Store)
+				if !ok {
+					continue
+				}
+				fa, ok := st.Addr.(*ssa.FieldAddr)
+				if !ok {
+					continue
+				}
+				tn, fld := fieldAddrName(fa)
+				if tn != "Manager" || !holders[fld] {
+					continue
+				}
+				v := stripConv(st.Val)
+				if mi, isMI := v.(*ssa.MakeInterface); isMI {
+					v = stripConv(mi.X)
+				}
+				byVal[v] = append(byVal[v], fld)
+			}
+		}
+		if len(byVal) == 0 {
+			continue
+		}
+		n++
+		shared := ""
+		for _, flds := range byVal {
+			seen := map[string]bool{}
+			for _, f := range flds {
+				seen[f] = true
+			}
+			if len(seen) > 1 {
+				shared = strings.Join(flds, " and ")
+			}
+		}
+		c.Check(rule, "crypto-key-holders-are-distinct-objects:"+fn.Name(), fn.Pos(), shared == "",
+			fnName(fn)+" gives the manager's "+shared+" one and the same key object: once one of them is filled in place (Unlock), data sealed under one key class opens under the other")
+	}
+	c.Floor(rule, "functions installing the manager's crypto keys", n, 1)
 }
